@@ -40,6 +40,9 @@ def deg(s: AState, which: str, n: str):
     return (0, 1 if which == "in" else 2, True)
 
 
+OWN_P: list = []
+
+
 def own_neighbours_exception(f, ev: Event, src: str, tgt: str) -> bool:
     """Reviewed exception (ii): reconnecting the track neighbours of the node that is being
     removed.  Witnesses: source/target are the two results of ONE get_track_neighbors call on
@@ -55,12 +58,22 @@ def own_neighbours_exception(f, ev: Event, src: str, tgt: str) -> bool:
     if f"time({node})" not in base:
         return False
     loops = {"predecessors": False, "successors": False}
-    for n in ast.walk(f.node):
-        if isinstance(n, ast.For) and getattr(n, "lineno", 0) < getattr(ev.node, "lineno", 10**9) or isinstance(n, ast.For):
-            it = norm(n.iter)
-            for k in loops:
-                if f".{k}(" in it and any(isinstance(x, ast.Call) and call_name(x) == "DeleteEdge" for x in ast.walk(n)):
-                    loops[k] = True
+    from ..resolve import Resolver
+
+    methods = list(f.cls.methods.values()) if f.cls is not None else [f]
+    for m in methods:
+        rs = Resolver(OWN_P[0], m) if OWN_P else None
+        for n in ast.walk(m.node):
+            gens = []
+            if isinstance(n, ast.For):
+                gens = [(n.iter, n)]
+            elif isinstance(n, (ast.ListComp, ast.GeneratorExp, ast.SetComp)):
+                gens = [(g.iter, n) for g in n.generators]
+            for it_expr, scope in gens:
+                it = rs.text(it_expr) if rs else norm(it_expr)
+                for k in loops:
+                    if f".{k}(" in it and any(isinstance(x, ast.Call) and call_name(x) == "DeleteEdge" for x in ast.walk(scope)):
+                        loops[k] = True
     return all(loops.values())
 
 
@@ -85,6 +98,7 @@ def run(P: Program, R: Report, tier: str) -> None:
         "distinct terms denote distinct nodes unless compared",
     ]
     A = ActionAnalysis(P, loop_iters=1 if tier == "quick" else 2)
+    OWN_P[:] = [P]
 
     # ---- R03.1 single gate
     prim_apply = {m.qname for c in A.primitives for m in c.methods.values()}
@@ -92,9 +106,13 @@ def run(P: Program, R: Report, tier: str) -> None:
     for fn in P.functions.values():
         if fn.parent is not None:
             continue
+        rs_ = None
         for n in ast.walk(fn.node):
             if isinstance(n, ast.Call) and isinstance(n.func, ast.Attribute) and n.func.attr in ("add_edge", "add_edges_from"):
-                recv = norm(n.func.value)
+                from ..resolve import Resolver
+
+                rs_ = rs_ or Resolver(P, fn)
+                recv = rs_.text(n.func.value)
                 on_tracks = "tracks.graph" in recv or (recv == "self.graph" and fn.cls is not None and P.is_subclass(fn.cls.qname, "Tracks"))
                 if not on_tracks:
                     continue
@@ -110,7 +128,7 @@ def run(P: Program, R: Report, tier: str) -> None:
             edge_prims.add(c.name)
     if not edge_prims:
         raise AnalysisError("no primitive adds an edge")
-    allowed = {A.init_of(c).qname for c in A.user_actions} | {
+    allowed = {A.init_of(c).qname for c in A.user_actions} | {m.qname for c in A.user_actions for m in c.methods.values()} | {
         m.qname for c in A.primitives for name, m in c.methods.items() if name == "inverse"
     }
     for fn in P.functions.values():
